@@ -87,8 +87,13 @@ def slot():
 _expander_ready = False
 
 
+def _repo_tag():
+    import hashlib
+    return "" if REPO == "/repo" else "-" + hashlib.sha1(REPO.encode()).hexdigest()[:10]
+
+
 def hook_target_dir():
-    return os.path.join(CACHE, "hooklib-target")
+    return os.path.join(CACHE, "hooklib-target" + _repo_tag())
 
 
 def build_expander():
@@ -97,11 +102,11 @@ def build_expander():
     if _expander_ready:
         return expander_path()
     os.makedirs(CACHE, exist_ok=True)
-    lockf = open(os.path.join(CACHE, "hooklib.lock"), "w")
+    lockf = open(os.path.join(CACHE, "hooklib%s.lock" % _repo_tag()), "w")
     fcntl.flock(lockf, fcntl.LOCK_EX)
     try:
         src = os.path.join(VERIF, "hooklib")
-        work = os.path.join(CACHE, "hooklib-src")
+        work = os.path.join(CACHE, "hooklib-src" + _repo_tag())
         # the manifest names /repo/derive-ex/src/lib.rs; honour VERIF_REPO for scratch worktrees
         if os.path.exists(work):
             shutil.rmtree(work)
@@ -176,7 +181,8 @@ def known_match(pid, key):
 # evidence
 # ---------------------------------------------------------------------------------------------
 def write_evidence(pid, tier, coverage, assumptions, wall_s, violations, level="model_checking"):
-    os.makedirs(os.path.join(VERIF, "evidence"), exist_ok=True)
+    evdir = os.environ.get("VERIF_EVIDENCE_DIR") or os.path.join(VERIF, "evidence")
+    os.makedirs(evdir, exist_ok=True)
     ev = {
         "property_id": pid,
         "tier": tier,
@@ -187,7 +193,7 @@ def write_evidence(pid, tier, coverage, assumptions, wall_s, violations, level="
         "wall_s": round(wall_s, 2),
         "violations": violations,
     }
-    p = os.path.join(VERIF, "evidence", pid + ".json")
+    p = os.path.join(evdir, pid + ".json")
     tmp = p + ".tmp"
     json.dump(ev, open(tmp, "w"), indent=1)
     os.replace(tmp, p)
